@@ -30,9 +30,13 @@ class IndexModel:
     def atom_of(self, e):
         c = self.classify(e)
         if c in ("own", "L"):
+            self._named = getattr(self, "_named", {})
+            self._named[e] = c
             return c
         if c == "peer":
             a = "peer#%d" % (len(self._peercache) if e not in self._peercache else self._peercache[e])
+            self._named = getattr(self, "_named", {})
+            self._named[e] = a
             if e not in self._peercache:
                 self._peercache[e] = len(self._peercache)
                 self.peer_atoms.add(a)
@@ -131,10 +135,19 @@ class IndexModel:
             return None
         # an expression this model could not linearise is an independent input only if it does not depend on the index, the length
         # or the peer's index; otherwise its value is tied to theirs and no assignment found here is a counterexample
-        from ..paths import subexprs
-        for a in opaque:
-            if isinstance(a, tuple) and any(self.classify(x) in ("own", "L", "peer") for x in subexprs(a) if isinstance(x, tuple)):
-                return None
+        from ..paths import subexprs, eval_concrete, NoValue
+        def free_leaf(a):
+            # an input of the term that the model does not name (the result of an atomic RMW, an unrelated load, a call): with
+            # such an input the term is not determined by the index and the length
+            for x in subexprs(a):
+                if isinstance(x, tuple) and x and x[0] in ("ld", "ald", "rmw", "call", "arg", "sym", "cx", "cxres") and \
+                        self.classify(x) not in ("own", "L", "peer"):
+                    if not any(self.classify(y) in ("own", "L", "peer") for y in subexprs(x) if isinstance(y, tuple) and y is not x and y[0] in ("ld", "ald")) or x[0] in ("rmw", "call", "cx", "cxres"):
+                        return True
+            return False
+        tied = [a for a in opaque if isinstance(a, tuple) and not free_leaf(a) and
+                any(self.classify(x) in ("own", "L", "peer") for x in subexprs(a) if isinstance(x, tuple))]
+        opaque = [a for a in opaque if a not in tied]
         names += opaque
         doms += [range(0, 5)] * len(opaque)
         for vals in product(*doms):
@@ -144,6 +157,14 @@ class IndexModel:
                     env[a] = X.eval(env) % env["L"]
             except KeyError:
                 return None
+            if tied:
+                # a term the model could not linearise but which is a function of the named values: its exact value
+                cenv = {e_: env[n_] for e_, n_ in getattr(self, "_named", {}).items() if n_ in env}
+                try:
+                    for a in tied:
+                        env[a] = eval_concrete(a, cenv)
+                except NoValue:
+                    return None
             if all(h.eval(env) >= 0 for h in self.pr.hyps) and all(h.eval(env) != 0 for h in self.pr.neqs):
                 try:
                     if bad(env):
